@@ -39,6 +39,62 @@ CLAIMS = {
              "text, so renaming/reordering/extracting does not fire.",
         note="Trusts pytest.approx's documented contract and sympy re/im. Floating-point behaviour exactly at the tolerance boundary is not decided.",
         technique="CFG dominators + reaching definitions + backward slices (decision dependence)", ref="DESIGN.md §2 C08"),
+    "C03": dict(
+        text="Static necessary conditions, exhaustive over the package: the name-dependency graph between all 846 modules is acyclic and an "
+             "exact simulation of CPython's import algorithm, started from every module as the first import of a fresh interpreter, finds "
+             "every imported name bound (I1); every module-level attribute read on an imported library module resolves (I2); no catalogue "
+             "module has an import-time effect on foreign objects or global SymPy state and the name counters have a single +1 writer "
+             "(I3); symbolic wrappers cannot alias through SymPy's display-string-keyed symbol cache (I4); every function symbol is applied "
+             "with its declared arity at import (I5). These are statements about all import orders / histories that one test order cannot "
+             "give; six catalogue modules are imported by no test at all.",
+        note="Does NOT decide that derivation asserts and solve(...)[k]/simplify pick the same branch under every state of the SYM<n> "
+             "counters (SymPy's name-driven ordering); imports inside functions are not import-time dependencies; foreign packages are "
+             "assumed importable.",
+        technique="import-graph SCCs + simulated import algorithm over static imports; module-level effect scan; arity/attribute resolution by abstract interpretation", ref="DESIGN.md §2 C03"),
+    "C05": dict(
+        text="Structural necessary conditions of a compositional collector on collect_quantity.py and Quantity.__init__: children coverage "
+             "(every child is passed, itself, to the recursive collector on every path), complete and correctly ordered first-match dispatch, "
+             "refusal discipline (equivalent_dims + any-dimension escape for both operands, dimensionless exponent/arguments, unevaluated "
+             "derivative, free symbols, complex(scale) before registration), homomorphism shape of the Mul/Add/Pow handlers. They hold for "
+             "all expression trees because they are facts about every path of each handler.",
+        note="The value-level statement (scale factor = SI value, dimension = dimensional product, for all trees) is not decided; only "
+             "operator kinds and data dependence are examined. Trusts SymPy's expression-tree API.",
+        technique="abstract child-set evaluation + path conditions + operator sets of backward slices over the dispatch handlers", ref="DESIGN.md §2 C05/C06"),
+    "C06": dict(
+        text="The same structural rules on the symbolic collector (collect_expression.py): children coverage including the numeric/"
+             "quantity/symbolic split and the differentiated operand and variables of Derivative, dispatch table, common-dimension helper "
+             "(refusal + any-dimension escapes), dimensionless exponent, homomorphism shape, and Symbolic wrappers taking their dimension "
+             "from the collector.",
+        note="The commuting diagram with evaluation on quantities is not decided. One defect found and repaired (Derivative of a compound operand).",
+        technique="abstract child-set evaluation + path conditions + operator sets of backward slices over the dispatch handlers", ref="DESIGN.md §2 C05/C06"),
+    "C07": dict(
+        text="convert_to is decided to be the ratio value.scale_factor/target.scale_factor (exact monomial normal form) guarded by the dimension "
+             "assertion on every path - composition, inversion and SI agreement then follow algebraically given C05; the SI base table is "
+             "checked against SymPy's unit tables read from source (total, right dimension, SI value 1) and the product formula over "
+             "dimensional dependencies; the Celsius helpers are affine with one shared constant 273.15.",
+        note="Exactness of Fraction/float division and SymPy's subs inside evaluate_expression are not decided; scale factors are assumed to be SI scale factors (C05).",
+        technique="monomial normal form of the return expression, CFG dominance, table check against SymPy unit sources", ref="DESIGN.md §2 C07"),
+    "C09": dict(
+        text="Fresh-name provenance for every constructor that creates a SymPy object (the name is next_name(<literal>) on every path, never "
+             "data-dependent on display names), injectivity of (prefix, counter) -> name, single monotone writer of the counters, clone "
+             "helpers forwarding dimension / both display names / subscript / assumptions (sibling cross-check), printers showing display "
+             "names. These quantify over all creation sequences because they are facts about every path of the constructors.",
+        note="Trusts that SymPy treats differently named symbols as distinct under subs/solve/diff. One frozen exception (IndexedSymbol re-created "
+             "from an existing SymPy symbol). One defect found and repaired (clone_as_function dropped assumptions).",
+        technique="backward slices of constructor name arguments; who-may-write; sibling agreement of clone helpers", ref="DESIGN.md §2 C09"),
+    "C18": dict(
+        text="Only the well-formedness clause: by induction over the custom LaTeX printer, every emitted template (26) and every display_latex/"
+             "subscript literal embedded verbatim (870+) is brace- and \\left/\\right-balanced, so concatenations of balanced sub-results stay balanced.",
+        note="Meaning preservation is NOT claimed (depends on SymPy predicates over run-time trees); SymPy's own LatexPrinter is trusted to be balanced.",
+        technique="template extraction from f-strings/%-formats/literals + balance check (structural induction)", ref="DESIGN.md §2 C18"),
+    "C19": dict(
+        text="The suite never runs the generator. Decided statically over all ~735 documented modules and the generator's own code: exec-compatibility "
+             "of the kept prefix under exec(code, {}, context), no __future__ imports, page uniqueness, placeholder discipline, resolvability "
+             "of every :symbols:/:quantity_notation: role, absence of order-visible iteration over unordered collections, pairing of the "
+             "evaluation disable/reset nodes and the value reset restores.",
+        note="Does not decide that Sphinx/exec/printing actually succeed on every module. The kept-prefix rule is a replica of the patcher's; "
+             "anchors in patch.py are checked (ANALYSIS-ERROR when they change). One defect found and repaired (hash-seed dependent role resolution).",
+        technique="scope analysis of module-level nested scopes, table checks, unordered-iteration dataflow, insertion pairing on the CFG", ref="DESIGN.md §2 C19"),
     "C20": dict(
         text="Finite table decided exhaustively: all 27 constants are folded from their source expressions over SymPy's unit tables "
              "(parsed from SymPy's source) to an SI value and a dimension vector and compared with a CODATA-2018/IAU reference table at "
